@@ -416,6 +416,8 @@ Proof.
   - destruct (on_ent i _ s) eqn:E; simpl; try discriminate. intros H. inversion H; subst.
     rewrite (on_ent_last _ _ _ _ E). lra.
   - destruct (change c now age order s); simpl; try discriminate. intros H. inversion H; subst. lra.
+  - destruct (on_ent i _ s) eqn:E; simpl; try discriminate. intros H. inversion H; subst.
+    rewrite (on_ent_last _ _ _ _ E). lra.
 Qed.
 
 Lemma steps_last c ops s s' : bump_ok c -> steps c ops s = Ok s' -> last s <= last s'.
@@ -730,6 +732,9 @@ Proof.
   intros [H1 H2]. unfold clear_oid. destruct (truthy (ch s e) && negb (truthy (ch (other s) e))); destruct s; split; unfold side_ok in *; simpl; assumption.
 Qed.
 
+Lemma discard_ok e : ent_ok e -> ent_ok (discard_ent e).
+Proof. intros _. split; unfold side_ok; simpl; discriminate. Qed.
+
 Lemma upd_forall {T} (P : T -> Prop) i x l : Forall P l -> P x -> Forall P (upd i x l).
 Proof.
   intros Hl Hx. revert i. induction Hl as [|y r Hy Hr IH]; intros [|i]; simpl; constructor; auto.
@@ -818,6 +823,8 @@ Proof.
   - destruct (on_ent i _ s) eqn:E; simpl; try discriminate. intros H. inversion H; subst.
     eapply on_ent_keeps; [|exact E]. intros e e' He. inversion He; subst. apply clear_oid_ok.
   - destruct (change c now age order s); simpl; try discriminate. intros H. inversion H; subst. auto.
+  - destruct (on_ent i _ s) eqn:E; simpl; try discriminate. intros H. inversion H; subst.
+    eapply on_ent_keeps; [|exact E]. intros e e' He. inversion He; subst. apply discard_ok.
 Qed.
 
 Lemma steps_keeps c ops s s' : cfg_ok c -> steps c ops s = Ok s' -> all_ok s -> all_ok s'.
